@@ -268,8 +268,9 @@ class Program:
             from . import inline as _inline_mod
             _inline_mod.ENUM_CLASSES.clear()
             _inline_mod.ENUM_CLASSES.update(ci.name for ci in self.classes.values() if any(b.rsplit('.', 1)[-1] in ('Enum', 'IntEnum', 'StrEnum', 'Flag') for b in ci.bases))
-            from .inline import Inliner, load_reference, normalise_record_objects, normalise_attribute_loops, normalise_class_constants, normalise_enum_values, normalise_local_tables, normalise_record_classes, normalise_compiled_patterns, normalise_literal_loops, normalise_module_constants, normalise_small_quantifiers
+            from .inline import Inliner, load_reference, record_classes_of, normalise_record_reads, normalise_record_fields, normalise_record_objects, normalise_attribute_loops, normalise_class_constants, normalise_enum_values, normalise_local_tables, normalise_record_classes, normalise_compiled_patterns, normalise_literal_loops, normalise_module_constants, normalise_small_quantifiers
             ref = load_reference()
+            self._record_tables: dict[str, dict] = {}
             if ref is not None:
                 for m in self.modules.values():
                     self._count('normalise_module_constants', normalise_module_constants(m.tree, m.name, [fi.node for fi in self.functions.values() if fi.module is m and fi.parent is None], ref))
@@ -282,6 +283,8 @@ class Program:
                         # the methods became nested functions of the functions that used the object: index them
                         for fi in [f for f in self.functions.values() if f.module is m and f.parent is None]:
                             self._add_nested(m, fi)
+                    self._record_tables[m.name] = record_classes_of(m.tree, m.name, ref)
+                    self._count('normalise_record_reads', normalise_record_reads(m.tree, self._record_tables[m.name]))
                     self._count('normalise_record_classes', normalise_record_classes(m.tree, m.name, [fi.node for fi in self.functions.values() if fi.module is m and fi.parent is None], ref))
             for fi in self.functions.values():
                 if fi.parent is None:
@@ -296,6 +299,9 @@ class Program:
                 inl = Inliner(self, ref)
                 inl.run()
                 self.inlined = inl.inlined
+                for fi in self.functions.values():
+                    if fi.parent is None:
+                        self._count('normalise_record_fields', normalise_record_fields(fi.node, self._record_tables))
             from .inline import normalise_unchanged_returns, normalise_comprehension_filters, normalise_conditional_returns, normalise_iteration, normalise_test_locals
             for fi in self.functions.values():
                 if fi.parent is None:
